@@ -94,3 +94,71 @@ func firstLineOf(s string) string {
 	}
 	return s
 }
+
+// runCLIFull runs the binary with the complete option set of o. The input is
+// given with -i (then o.Path must be that file's path: use cliInputPath) or on
+// standard input; the output is read from standard output or from a -o file.
+func runCLIFull(dir, src string, p *spec.Program, o h.Opts, useStdin, useOutFile bool) cliResult {
+	bin := os.Getenv("PORYSCRIPT_BIN")
+	if bin == "" {
+		return cliResult{Err: fmt.Errorf("PORYSCRIPT_BIN not set")}
+	}
+	in := cliInputPath(dir)
+	args := []string{"-cc", writeCmdConfig(dir, p), fmt.Sprintf("-optimize=%v", o.Optimize), fmt.Sprintf("-lm=%v", o.LM)}
+	if o.FontPath != "" {
+		args = append(args, "-fc", o.FontPath)
+	}
+	if o.FontID != "" {
+		args = append(args, "-f", o.FontID)
+	}
+	if o.MaxLen != 0 {
+		args = append(args, "-l", fmt.Sprint(o.MaxLen))
+	}
+	keys := make([]string, 0, len(o.Switches))
+	for kk := range o.Switches {
+		keys = append(keys, kk)
+	}
+	sort.Strings(keys)
+	for _, kk := range keys {
+		args = append(args, "-s", kk+"="+o.Switches[kk])
+	}
+	if !useStdin {
+		if err := os.WriteFile(in, []byte(src), 0o644); err != nil {
+			return cliResult{Err: err}
+		}
+		args = append(args, "-i", in)
+	}
+	outFile := filepath.Join(dir, "out.inc")
+	if useOutFile {
+		os.WriteFile(outFile, []byte("stale content that must be replaced\n"), 0o644)
+		args = append(args, "-o", outFile)
+	}
+	cmd := exec.Command(bin, args...)
+	var so, se bytes.Buffer
+	cmd.Stdout, cmd.Stderr = &so, &se
+	if useStdin {
+		cmd.Stdin = strings.NewReader(src)
+	}
+	err := cmd.Run()
+	r := cliResult{Out: so.String(), Stderr: se.String()}
+	if err != nil {
+		if ee, ok := err.(*exec.ExitError); ok {
+			r.Exit = ee.ExitCode()
+		} else {
+			r.Err = err
+		}
+	}
+	if useOutFile && r.Exit == 0 {
+		b, rerr := os.ReadFile(outFile)
+		if rerr != nil {
+			r.Err = rerr
+		}
+		if so.Len() > 0 {
+			r.Stderr += "\n[unexpected standard output with -o: " + firstN(so.String(), 80) + "]"
+		}
+		r.Out = string(b)
+	}
+	return r
+}
+
+func cliInputPath(dir string) string { return filepath.Join(dir, "input.pory") }
